@@ -189,7 +189,7 @@ class FIXTester:
             msg,
             self.conn_accept._session,
             raw_seq_num=FTag.MsgSeqNum in msg,
-        ).encode()
+        ).encode("latin-1")
 
         # Pretend the message was transfered to initiator
         decoded_msg, _, _ = self.conn_init._codec.decode(raw_msg, silent=False)
